@@ -28,7 +28,9 @@ VALUES = [None, 0, False, 'str', [1, 'a'], {'k': [1, 2]}, ['__bytes__', 1_000_00
 EXCS = [['ValueError', ['x']], ['KeyError', ['k']], ['Boom', ['a', 1]], ['Boom2', [1, 2]], ['OSError', [2, 'No such file']],
         ['ReduceExc', [7, 'detail']], ['KwOnlyExc', [], {'reason': 'why'}], ['AssertionError', []], ['KeyboardInterrupt', []],
         ['ZeroDivisionError', ['division by zero']], ['UnicodeDecodeError', ['utf-8', '__b__', 0, 1, 'bad']], ['FileNotFoundError', [2, 'nf', 'name']],
-        ['RuntimeError', ['a', 'b', 'c']], ['StopIteration', [5]], ['TimeoutError', ['late']], ['ConnectionResetError', [104, 'reset']]]
+        ['RuntimeError', ['a', 'b', 'c']], ['StopIteration', [5]], ['TimeoutError', ['late']], ['ConnectionResetError', [104, 'reset']],
+        # classes whose constructor rejects a lone str with something other than TypeError (validating / looking up / reading attributes)
+        ['StatusError', [404]], ['CodeError', ['E2']], ['RespError', [503, 'busy']]]
 EXITS = [None, 0, 1, 3, 'bye']
 ACCESSORS = ['join', 'result', 'exception', 'done', 'exitcode', 'wait', 'as_completed']
 
